@@ -619,19 +619,16 @@ End Select.
 
 (* ------------------------------------------------------------------ info: the verdict *)
 Lemma check_files_no_missing c fs r deps :
-  (forall f, In f deps -> file_verdict md5 c fs r f <> FMissing) ->
-  forall ch ms, check_files md5 c fs r true deps ch ms = check_files md5 c fs r false deps ch ms.
+  (forall f, In f deps -> dep_verdict md5 v c fs r f <> FMissing) ->
+  forall ch ms, check_files md5 v c fs r true deps ch ms = check_files md5 v c fs r false deps ch ms.
 Proof.
   induction deps as [|f deps IH]; intros H ch ms; simpl; auto.
-  destruct (file_verdict md5 c fs r f) eqn:E; auto; try (apply IH; intros; apply H; simpl; auto).
+  destruct (dep_verdict md5 v c fs r f) eqn:E; auto; try (apply IH; intros; apply H; simpl; auto).
   exfalso. apply (H f); simpl; auto.
 Qed.
 
-Lemma file_verdict_missing c fs r f : file_verdict md5 c fs r f = FMissing <-> fs f = None.
-Proof.
-  unfold file_verdict. destruct (fs f) as [st|]; [|tauto].
-  destruct (r_saved r f) as [e|]; [destruct (check_modified md5 c st e) as [[|]|]|]; split; discriminate.
-Qed.
+Lemma file_verdict_missing c fs r f : dep_verdict md5 v c fs r f = FMissing <-> fs f = None.
+Proof. apply dep_verdict_missing. Qed.
 
 (* every file dependency exists and no record was written by the other checker's code path:
    get_log=True answers what get_log=False answers *)
@@ -641,15 +638,15 @@ Lemma get_status_modes_agree c fs d t df :
   g_status (get_status c fs d t df true) = g_status (get_status c fs d t df false).
 Proof.
   intros Hex Hnc.
-  assert (Hcf : forall r, check_files md5 c fs r true (file_dep df) [] [] = check_files md5 c fs r false (file_dep df) [] []).
+  assert (Hcf : forall r, check_files md5 v c fs r true (file_dep df) [] [] = check_files md5 v c fs r false (file_dep df) [] []).
   { intros r. apply check_files_no_missing. intros f Hf E. apply file_verdict_missing in E. apply (Hex f); auto. }
   revert Hnc. unfold Status.get_status. cbv zeta. fold (ck_changed c (getrec d t)). simpl.
   rewrite <- Hcf.
   set (d1 := if ck_changed c (getrec d t) then remove d t else d).
-  destruct (check_files md5 c fs (getrec d1 t) true (file_dep df) [] []) as [ch ms| |] eqn:E; simpl.
+  destruct (check_files md5 v c fs (getrec d1 t) true (file_dep df) [] []) as [ch ms| |] eqn:E; simpl.
   - intros _.
     assert (Hms : ms = []).
-    { pose proof (check_files_no_error md5 c fs (getrec d1 t) true (file_dep df)) as Hne.
+    { pose proof (check_files_no_error md5 v c fs (getrec d1 t) true (file_dep df)) as Hne.
       specialize (Hne (fun f Hf E' => Hex f Hf (proj1 (file_verdict_missing c fs _ f) E')) [] []).
       rewrite E in Hne. exact Hne. }
     subst ms.
@@ -658,7 +655,7 @@ Proof.
     destruct (is_nil (filter (fun x => negb (exists_ fs x)) (targets df))) eqn:E3; simpl;
     destruct (ck_changed c (getrec d t)) eqn:E4; simpl; rewrite ?E; simpl;
     destruct ch; simpl; try reflexivity; rewrite ?orb_true_r; reflexivity.
-  - pose proof (check_files_no_error md5 c fs (getrec d1 t) true (file_dep df)) as Hne.
+  - pose proof (check_files_no_error md5 v c fs (getrec d1 t) true (file_dep df)) as Hne.
     specialize (Hne (fun f0 Hf E' => Hex f0 Hf (proj1 (file_verdict_missing c fs _ f0) E')) [] []).
     rewrite E in Hne. destruct Hne.
   - intros H. exfalso.
@@ -667,18 +664,18 @@ Qed.
 
 (* ------------------------------------------------------------------ info: the reasons *)
 Definition is_changed (c : ck) (fs : fsys) (r : rec) (f : file) : bool :=
-  match file_verdict md5 c fs r f with FChanged => true | _ => false end.
+  match dep_verdict md5 v c fs r f with FChanged => true | _ => false end.
 Definition is_missing (c : ck) (fs : fsys) (r : rec) (f : file) : bool :=
-  match file_verdict md5 c fs r f with FMissing => true | _ => false end.
+  match dep_verdict md5 v c fs r f with FMissing => true | _ => false end.
 
 Lemma check_files_log c fs r deps : forall ch ms,
-  check_files md5 c fs r true deps ch ms = FLCrash \/
-  check_files md5 c fs r true deps ch ms =
+  check_files md5 v c fs r true deps ch ms = FLCrash \/
+  check_files md5 v c fs r true deps ch ms =
     FLDone (rev ch ++ filter (is_changed c fs r) deps) (rev ms ++ filter (is_missing c fs r) deps).
 Proof.
   induction deps as [|f deps IH]; intros ch ms; simpl.
   - right. rewrite !app_nil_r. reflexivity.
-  - unfold is_changed, is_missing. destruct (file_verdict md5 c fs r f) eqn:E; auto.
+  - unfold is_changed, is_missing. destruct (dep_verdict md5 v c fs r f) eqn:E; auto.
     + destruct (IH ch (f :: ms)) as [H|H]; [left; auto|right]. rewrite H. simpl. rewrite <- !app_assoc. reflexivity.
     + destruct (IH (f :: ch) ms) as [H|H]; [left; auto|right]. rewrite H. simpl. rewrite <- !app_assoc. reflexivity.
 Qed.
@@ -913,18 +910,18 @@ Proof.
     + apply Forall_forall. intros f Hf.
       pose proof (N4 KChanged) as A. pose proof (N4 KMissingDep) as B. unfold entries in A, B. rewrite R8 in A. rewrite R7 in B.
       rewrite filter_nil_iff in A, B. specialize (A f Hf). specialize (B f Hf). unfold is_changed in A. unfold is_missing in B.
-      destruct (file_verdict md5 c fs rc f) eqn:E; try discriminate; auto.
+      destruct (dep_verdict md5 v c fs rc f) eqn:E; try discriminate; auto.
       exfalso. apply Hnc. fold g.
       (* a TypeError verdict is excluded by the hypothesis *)
       clear -E Hf Hnc Edb. exfalso. apply Hnc.
       unfold g, Status.get_status. cbv zeta. fold (ck_changed c (getrec d t)).
-      assert (Hcr : check_files md5 c fs rc true (file_dep df) [] [] = FLCrash).
+      assert (Hcr : check_files md5 v c fs rc true (file_dep df) [] [] = FLCrash).
       { destruct (check_files_log c fs rc (file_dep df) [] []) as [X|X]; auto. exfalso.
         clear -E Hf X. revert X. generalize (@nil file) at 1 3. generalize (@nil file) at 1 2.
         induction (file_dep df) as [|y l IH]; [destruct Hf|]. intros ms ch. simpl.
         destruct Hf as [->|Hf].
         - rewrite E. discriminate.
-        - destruct (file_verdict md5 c fs rc y) eqn:Ey.
+        - destruct (dep_verdict md5 v c fs rc y) eqn:Ey.
           + intros X. apply (IH Hf (y :: ms) ch).
             unfold is_missing, is_changed in *. rewrite Ey in X. simpl in X. simpl. rewrite <- !app_assoc. exact X.
           + intros X. apply (IH Hf ms (y :: ch)).
@@ -962,21 +959,15 @@ Proof.
   - split; [discriminate|]. intros [p [E _]]. discriminate.
 Qed.
 
+(* what the loop lists: an existing dependency with no saved state, or outside the saved 'deps:' list
+   (fixC), or modified according to the checker *)
 Lemma file_verdict_changed c fs r f :
-  file_verdict md5 c fs r f = FChanged <->
+  dep_verdict md5 v c fs r f = FChanged <->
   exists st, fs f = Some st /\
-             (r_saved r f = None \/ exists e, r_saved r f = Some e /\ check_modified md5 c st e = Some true).
-Proof.
-  unfold file_verdict. destruct (fs f) as [st|].
-  - destruct (r_saved r f) as [e|].
-    + destruct (check_modified md5 c st e) as [[|]|] eqn:E; split; try discriminate.
-      * intros _. exists st. split; auto. right. exists e. auto.
-      * intros [st' [H1 [H2|[e' [H2 H3]]]]]; [discriminate|]. inversion H1; inversion H2; subst. congruence.
-      * intros [st' [H1 [H2|[e' [H2 H3]]]]]; [discriminate|]. inversion H1; inversion H2; subst. congruence.
-      * intros [st' [H1 [H2|[e' [H2 H3]]]]]; [discriminate|]. inversion H1; inversion H2; subst. congruence.
-    + split; auto. intros _. exists st. auto.
-  - split; [discriminate|]. intros [st [H _]]. discriminate.
-Qed.
+    (r_saved r f = None \/
+     (r_saved r f <> None /\ fixC v = true /\ outside_saved_deps r f = true) \/
+     (fixC v && outside_saved_deps r f = false /\ exists e, r_saved r f = Some e /\ check_modified md5 c st e = Some true)).
+Proof. apply dep_verdict_changed. Qed.
 
 Lemma info_lines_true c fs d t df : fixA v = true ->
   let g := get_status c fs d t df true in
@@ -990,7 +981,7 @@ Lemma info_lines_true c fs d t df : fixA v = true ->
   (forall p c', In (IChecker p c') lines <-> r_checker (getrec d t) = Some p /\ p <> c /\ c' = c) /\
   (forall x, In (IItem KMissingTarget x) lines <-> In x (targets df) /\ exists_ fs x = false) /\
   (forall f, In (IItem KMissingDep f) lines <-> In f (file_dep df) /\ fs f = None) /\
-  (forall f, In (IItem KChanged f) lines <-> In f (file_dep df) /\ file_verdict md5 c fs rc f = FChanged) /\
+  (forall f, In (IItem KChanged f) lines <-> In f (file_dep df) /\ dep_verdict md5 v c fs rc f = FChanged) /\
   (forall f, In (IItem KAdded f) lines <-> In f (file_dep df) /\ exists p, r_deps rc = Some p /\ ~ In f p) /\
   (forall f, In (IItem KRemoved f) lines <-> ~ In f (file_dep df) /\ exists p, r_deps rc = Some p /\ In f p).
 Proof.
@@ -1017,10 +1008,10 @@ Proof.
   { intros x. rewrite get_reasons_item. unfold entries. rewrite R3, filter_In, negb_true_iff. tauto. }
   split.
   { intros f. rewrite get_reasons_item. unfold entries. rewrite R7, filter_In. unfold is_missing.
-    rewrite <- (file_verdict_missing c fs rc f). destruct (file_verdict md5 c fs rc f); split; intros [A B]; split; auto; discriminate. }
+    rewrite <- (file_verdict_missing c fs rc f). destruct (dep_verdict md5 v c fs rc f); split; intros [A B]; split; auto; discriminate. }
   split.
   { intros f. rewrite get_reasons_item. unfold entries. rewrite R8, filter_In. unfold is_changed.
-    destruct (file_verdict md5 c fs rc f); split; intros [A B]; split; auto; discriminate. }
+    destruct (dep_verdict md5 v c fs rc f); split; intros [A B]; split; auto; discriminate. }
   split.
   { intros f. rewrite get_reasons_item. unfold entries. rewrite R5.
     destruct (deps_changed v rc df) eqn:E.
